@@ -109,6 +109,10 @@ class Selection:
         self._seen_k = []
         self._seen_n = []
         c.lib_used.add('SELECTION-THEORY')
+        reg = getattr(c, 'selections', None)
+        if reg is None:
+            reg = c.selections = []
+        reg.append(self)
         # lemma (proved on the spot with a fresh index): keep everywhere => count == total;
         # keep nowhere => count == 0
         if c.check_feasible:
